@@ -1409,6 +1409,11 @@ def namedtuple_rows(mod: ast.Module) -> ast.Module:
     literal table (unrolled like any other) and `row.text`, once `row` has been replaced by the row's display, is the element
     (_ConstGetattr).  Values only: nothing else about the type is used."""
     fields = namedtuple_fields(mod)
+    # (a NamedTuple class that defines METHODS is more than a row of values: its constructor call stays, valueflow reads it as a record
+    # whose methods can be called)
+    for st in ast.walk(mod):
+        if isinstance(st, ast.ClassDef) and st.name in fields and any(isinstance(b, (ast.FunctionDef, ast.AsyncFunctionDef)) for b in st.body):
+            del fields[st.name]
     if not fields:
         return mod
 
@@ -2843,6 +2848,21 @@ def _static_seq(e, lits, depth: int = 0):
     return None
 
 
+_STR_PURE = ("partition", "rpartition", "split", "rsplit", "lower", "upper", "strip", "lstrip", "rstrip", "removeprefix", "removesuffix", "replace",
+             "title", "capitalize", "startswith", "endswith")
+
+
+def _const_node(v):
+    """literal node of a str / bool / int / None or a (nested) tuple / list of them, else None"""
+    if v is None or isinstance(v, (str, bool, int)):
+        return ast.Constant(value=v)
+    if isinstance(v, (tuple, list)) and len(v) <= 64:
+        elts = [_const_node(x) for x in v]
+        if all(e is not None for e in elts):
+            return (ast.Tuple if isinstance(v, tuple) else ast.List)(elts=elts, ctx=ast.Load())
+    return None
+
+
 class _Fold(ast.NodeTransformer):
     """scalar folding of the literal part of an expression (see fold_static)"""
 
@@ -2958,6 +2978,17 @@ class _Fold(ast.NodeTransformer):
         if name == "getattr" and len(n.args) == 2 and not n.keywords and isinstance(n.args[1], ast.Constant) and isinstance(n.args[1].value, str) \
                 and n.args[1].value.isidentifier():
             return ast.copy_location(ast.Attribute(value=n.args[0], attr=n.args[1].value, ctx=ast.Load()), n)
+        # a pure str method of a literal string with literal arguments is the literal it yields: "UMIST_AD".partition("_") -> ("UMIST", "_", "AD")
+        if isinstance(f, ast.Attribute) and isinstance(f.value, ast.Constant) and isinstance(f.value.value, str) and f.attr in _STR_PURE and not n.keywords \
+                and all(isinstance(a, ast.Constant) and isinstance(a.value, (str, int, type(None))) and not isinstance(a.value, bool) for a in n.args) \
+                and len(f.value.value) <= 256:
+            try:
+                r = getattr(f.value.value, f.attr)(*[a.value for a in n.args])
+            except Exception:
+                return n
+            lit = _const_node(r)
+            if lit is not None:
+                return ast.copy_location(lit, n)
         if isinstance(f, ast.Attribute) and f.attr == "get" and isinstance(f.value, ast.Dict) and 1 <= len(n.args) <= 2 and not n.keywords \
                 and isinstance(n.args[0], ast.Constant) and _const_keys(f.value) is not None and all(_pure(x, lambdas=True) for x in f.value.values):
             hit = [val for k, val in zip(f.value.keys, f.value.values) if _same_const(k.value, n.args[0].value)]
